@@ -21,7 +21,7 @@ GLOBAL_ASSUMPTIONS = {
     'A-LIBM': 'libm functions are uninterpreted symbols constrained only by the instantiated axioms listed per obligation '
               '(sqrt(t)^2=t & sqrt(t)>=0 for t>=0; sin^2+cos^2=1; addition theorems; asin/acos/atan inverse relations)',
     'A-CONST': 'decimal literals that agree with sqrt(2), 1/sqrt(2), sqrt(3/5), sqrt(3/20), pi, pi^2/k, ln 2, ln 4 to >= 14 digits are taken to be those constants',
-    'A-FRONT': 'the extractor (gm2v/cxx.py) and interpreter (gm2v/interp.py) are correct; guarded on every full run, where coverage.fidelity_guard is not null, by bit-exact differential execution against the compiled real code (scalar kernels: C01-C03, C10, C11, C20; MSSM model functions on real spectra: C03-C07, C18), and for all properties by replaying counterexamples on the real code',
+    'A-FRONT': 'the extractor (gm2v/cxx.py) and interpreter (gm2v/interp.py) are correct; guarded on every full run, where coverage.fidelity_guard is not null, by bit-exact differential execution against the compiled real code (scalar kernels: C01-C03, C10, C11, C20; MSSM model functions on real spectra: C03-C07, C18; THDM model functions on real models: C08, C09, C16), and for all properties by replaying counterexamples on the real code',
     'A-SMT': 'z3 5.1 / z3 4.8.12 / cvc5 1.0.3 are sound',
 }
 
